@@ -12,6 +12,7 @@
              the simplified form the generator sees; otherwise only loaded.  */
 #include "mir.c"
 #include <setjmp.h>
+#include <unistd.h>
 
 static jmp_buf err_jmp;
 static int err_armed = 0;
@@ -25,7 +26,7 @@ static void MIR_NO_RETURN err_func (MIR_error_type_t t, const char *fmt, ...) {
   if (err_armed) longjmp (err_jmp, 1 + (int) t);
   printf ("MIRERROR %d %s\n", (int) t, err_msg);
   fflush (stdout);
-  exit (3);
+  _exit (3);
 }
 
 static char dummy_target[64];
@@ -408,6 +409,12 @@ int main (int argc, char **argv) {
            i = DLIST_NEXT (MIR_insn_t, i))
         p0[k++] = i;
 
+      if (getenv ("C16_NODUP") != NULL) { /* control run: is a leak there without duplicate/restore? */
+        free (t0);
+        free (p0);
+        fno++;
+        continue;
+      }
       _MIR_duplicate_func_insns (ctx, item);
       char *t1 = item_text (ctx, item);
       dump (ctx, item, "D1");
